@@ -152,8 +152,51 @@ func c10WriteOrder(c *Check, a *Anchors) {
 	}
 	// the range function closure(s): every `return nil` after a Set on result; no Get-gating
 	nClos := 0
+	// the range functions: closures func(k string, v ast.Var) error — literals of the resolver itself, or of a method of the
+	// package the resolver obtains them from (c.rangeFunc(result, ...)), in which case `result` is the parameter bound to it
+	type rangeLit struct {
+		lit    *FuncBody
+		scope  *FuncBody
+		result *types.Var
+	}
+	var rls []rangeLit
 	for _, lit := range allLits(fb) {
-		// the range functions: closures func(k string, v ast.Var) error
+		rls = append(rls, rangeLit{lit, fb, result})
+	}
+	for _, call := range callsIn(fb, true) {
+		fn, ok := callee(info, call).(*types.Func)
+		if !ok {
+			continue
+		}
+		h := c.P.DeclOf(fn)
+		if h == nil || h.Pkg != fb.Pkg || h == fb || h.Type.Params == nil {
+			continue
+		}
+		idx := 0
+		for _, fld := range h.Type.Params.List {
+			for _, id := range fld.Names {
+				if idx < len(call.Args) && varOf(info, call.Args[idx]) == result {
+					if pv, ok := h.Info().Defs[id].(*types.Var); ok {
+						seen := false
+						for _, r := range rls {
+							if r.scope == h {
+								seen = true
+							}
+						}
+						if !seen {
+							c.Fn(h)
+							for _, lit := range allLits(h) {
+								rls = append(rls, rangeLit{lit, h, pv})
+							}
+						}
+					}
+				}
+				idx++
+			}
+		}
+	}
+	for _, rl := range rls {
+		lit, result, fb := rl.lit, rl.result, rl.scope
 		if lit.Type.Params == nil || lit.Type.Params.NumFields() != 2 || lit.Type.Results == nil || lit.Type.Results.NumFields() != 1 {
 			continue
 		}
@@ -224,7 +267,7 @@ func c10WriteOrder(c *Check, a *Anchors) {
 		}
 	}
 	if nClos == 0 {
-		c.Bad("vars-write-order", "override-semantics@"+name, fb.Decl.Pos(), "no range function that Sets into the result was found in the variable resolver")
+		c.Bad("vars-write-order", "override-semantics@"+name, a.GetVariables.Decl.Pos(), "no range function that Sets into the result was found in the variable resolver")
 	}
 }
 
